@@ -52,6 +52,8 @@ class Module:
             self.tree = ast.parse(src, filename=relpath)
         except SyntaxError as exc:
             raise AnalysisError("cannot parse %s: %s" % (relpath, exc))
+        from .normalize import normalize_module
+        self.normalized = normalize_module(self.tree)
         self.aliases = {}  # local name -> dotted target
         self.functions = {}  # qualname -> FuncInfo
         self.classes = {}  # name -> ClassDef
@@ -147,6 +149,8 @@ class Repo:
                 name = rel.split("/")[1][:-3]
                 if name not in self.modules:
                     self.modules[name] = Module(name, rel, src)
+        from .normalize import positional_keywords
+        self.keywords_made_positional = positional_keywords(self.modules)
 
     def _read(self, rel):
         if rel in self.overlay:
